@@ -218,7 +218,7 @@ pub fn random_stream(r: &mut Rng, sh: bool) -> Vec<u8> {
     let mut data = vec![];
     for _ in 0..r.below(4) {
         let big = if r.one_in(15) { 3000 } else { 16 };
-        let m = gen::message(r, &MsgOpts { storage: Some(sh), big, max_args: 3 });
+        let m = if r.one_in(40) { gen::boundary_message(r, Some(sh)) } else { gen::message(r, &MsgOpts { storage: Some(sh), big, max_args: 3 }) };
         let mut b = m.as_bytes();
         if r.one_in(6) { b = gen::mutate(r, &b, sh); }
         data.extend(b);
